@@ -281,6 +281,24 @@ func genScenario(rng *Rng, kind string) *Scenario {
 		s.continues = 0
 		s.dupPush = true
 		s.core = true
+	case "duppushpc":
+		// duppush with a pre-check: the queued tasks carry a skip check on shared data that t1's main action writes
+		// before it fails.  First push (at the start): the key is absent, the task is handed to the executor and queues
+		// up behind the single busy worker.  Second push (re-initialisation by the retry command): the check holds,
+		// 'skipped' is written and the dependents proceed - and the first delivery then runs the task all the same.
+		s.tasks = s.tasks[:0]
+		nt := 4 + rng.Intn(2)
+		s.tasks = append(s.tasks, taskSpec{id: "t1", action: "A"})
+		for i := 2; i <= nt; i++ {
+			s.tasks = append(s.tasks, taskSpec{id: fmt.Sprintf("t%d", i), action: "A",
+				pre: entity.PreChecks{"s": {Act: entity.ActiveActionSkip, Conditions: []entity.TaskCondition{{Source: entity.TaskConditionSourceShareData, Key: "k0", Op: entity.OperatorNotIn, Values: nil}}}}})
+		}
+		s.scripts = map[string][]phaseScript{"t1/run": {{outcome: 1, ops: []actOp{{kind: 0, k: "k0", v: "t1.run.0.1"}}}, {}, {}}}
+		s.execWorkers = 1
+		s.parserWorkers = 1
+		s.retries = 1
+		s.continues = 0
+		s.dupPush = true
 	case "tracefault":
 		// every phase traces (buffered and immediate); one status write of some task fails
 		for _, t := range s.tasks {
